@@ -1,14 +1,26 @@
 /-
   Model of internal/ast/compiler/sanitize_enum_member_names.go (PHP chain).
   Visitor with `OnEnum` only: every enum at a visited position (array element, map VALUE, struct
-  fields, disjunction and intersection branches, object top level).  `member.Name[0]` panics on an
-  empty name (unless the member is the empty string constant, renamed `None` first).
+  fields, disjunction and intersection branches, object top level).  Since /repo fix aceba4d an
+  empty name no longer panics (`member.Name[0]`): it is returned unchanged, unless the member is the
+  empty string constant, renamed `None` first.  `sanitizeMemberPreFix` keeps the old behaviour.
 -/
 import Cog.Passes.Common
 namespace Cog.Passes.SanitizeEnumMemberNames
 open Cog.IR Cog.Passes
 
+/-- `sanitizeEnumMember` (tree after fix aceba4d: `member.Value == ""` without assertion,
+    `strings.HasPrefix` instead of `member.Name[0]`: an empty name is returned as it is) -/
 def sanitizeMember (v : EnumVal) : Outcome EnumVal :=
+  if v.kind.startsWith "?" then .panic "SanitizeEnumMemberNames: member.Type.Scalar"
+  else
+    let n0 := if v.kind == "string" && v.name == "" && (match v.value with | .str s => s == "" | _ => false) then "None" else v.name
+    let n1 := if head0 n0 == some '-' then ucc ("negative" ++ tail1 n0) else n0
+    let n2 := if head0 n1 == some '+' then ucc ("positive" ++ tail1 n1) else n1
+    .ok { v with name := n2 }
+
+/-- `sanitizeEnumMember` before fix aceba4d -/
+def sanitizeMemberPreFix (v : EnumVal) : Outcome EnumVal :=
   if v.kind.startsWith "?" then .panic "SanitizeEnumMemberNames: member.Type.Scalar"
   else
     let n0 : Outcome String :=
